@@ -53,7 +53,7 @@ def field(item, key):
     return m.group(1) if m else None
 
 
-def check_schedule(ctx, fe, schedule, out, sig):
+def check_schedule(ctx, fe, schedule, out, sig, positions=True):
     """schedule: list of (msg, fragment index); out: driver/impl output"""
     lines = [m.lines[i] for m, i in schedule]
     exp = []
@@ -61,7 +61,7 @@ def check_schedule(ctx, fe, schedule, out, sig):
     for pos, (m, i) in enumerate(schedule):
         got_frags.setdefault(id(m), set()).add(i)
         if len(got_frags[id(m)]) == m.n:
-            exp.append((pos, m.expected()))
+            exp.append((pos if positions else 0, m.expected()))
             got_frags[id(m)] = set()
     compare(ctx, fe, lines, exp, out, sig)
 
@@ -166,6 +166,20 @@ class Prop:
             for (label, sched), o in zip(cases, outs):
                 ctx.count(label.split(' reuse')[0] if label != 'random' else 'random')
                 check_schedule(ctx, fe, sched, o, {'frontend': fe})
+        # the same schedules as a byte stream through the socket readers, cut into small pieces (a sentence may arrive
+        # in three or more of them); no input positions there: the sequence of deliveries
+        srng = ctx.rng('c03-socket')
+        sub = cases[::4]
+        ops = []
+        for _, sched in sub:
+            stream = b''.join(m.lines[i] + b'\r\n' for m, i in sched)
+            k = srng.choice([0, 2, 7, 25, len(stream) // 9 + 1, len(stream) // 3])
+            cuts = sorted(set(srng.sample(range(1, len(stream)), min(k, len(stream) - 1))))
+            pts = [0] + cuts + [len(stream)]
+            ops.append('socket 0 ' + ' '.join(stream[a:b].hex() for a, b in zip(pts, pts[1:])))
+        outs = ctx.corr(ops, impl.step, 'stream-socket', nontrivial=lambda l, o: '0a21' in o)
+        for (label, sched), o in zip(sub, outs):
+            check_schedule(ctx, 'socket', sched, o, {'frontend': 'socket'}, positions=False)
         # model-versus-implementation only: sequences with leftovers of incomplete sets
         left = self.leftovers(ctx.rng('c03-left'), 300 if ctx.tier == 'quick' else 5000)
         for fe in ('iter', 'queue'):
@@ -197,6 +211,8 @@ class Prop:
 
     def replay(self, ctx, payload):
         inp = payload['failure']['input']
+        if inp['frontend'] == 'socket':
+            return None        # (regenerated from the recorded seed: the pieces are part of the case)
         out = impl.step('stream %s 0 %s' % (inp['frontend'], ' '.join(inp['lines'])))
         compare(ctx, inp['frontend'], [bytes.fromhex(x) for x in inp['lines']],
                 [(p, e) for p, e in inp['expected']], out, {'frontend': inp['frontend']})
